@@ -182,7 +182,7 @@ func runC20(c *Ctx) {
 	}
 	doms := []dom{{0, tspValues}, {1, tspValues}, {2, tspValues}, {3, tspValues}, {4, tspValues[:4]}, {5, []int{-1, 123456789}}}
 	if c.Thorough() {
-		doms = append(doms, dom{4, tspValues}, dom{5, []int{math.MinInt64, 0, 7}}, dom{6, []int{-1, 5}})
+		doms = append(doms, dom{4, tspValues}, dom{5, []int{math.MinInt64, 0, 7, math.MaxInt64}}, dom{6, []int{-1, 5}}, dom{7, []int{-10, 123}})
 	}
 	for _, d := range doms {
 		L := d.n * (d.n - 1) / 2
@@ -227,7 +227,7 @@ func runC20(c *Ctx) {
 			tc := tspCase{N: n, Weights: w}
 			c.Check(func() *Failure { return evalTSP(tc) })
 			c.Nontrivial(1)
-			if n <= 12 || (variant == 1 && n >= 128 && n <= 130) {
+			if n <= 12 || (variant == 1 && n >= 128 && n <= 130) || (c.Thorough() && variant <= 1) {
 				// fault positions for this run: all of them for n <= 12; for n around 128 the first and last 12 writes
 				// and every 61st in between (stated bound)
 				var calls [][2]int
@@ -235,7 +235,7 @@ func runC20(c *Ctx) {
 				if tsp.LIB(rec, n, tspWeightsFn(tc, &calls)) == nil {
 					var ps []int
 					for p := 0; p < rec.writes; p++ {
-						if n <= 12 || p < 12 || p >= rec.writes-12 || p%61 == 0 {
+						if n <= 12 || p < 12 || p >= rec.writes-12 || p%61 == 0 || (c.Thorough() && n <= 130) || (c.Thorough() && p%7 == 0) {
 							ps = append(ps, p)
 						}
 					}
@@ -257,6 +257,7 @@ func runC20(c *Ctx) {
 	maxN := 4
 	if c.Thorough() {
 		maxN = 5
+		c.Rule += "; THOROUGH: fault runs for all 59049 weight functions over the 3-value set at n=5; every write position for n in {37,100,101,128,129,130} and every 7th for n=257, two weight functions each; fault-free runs over 4 values at n=5 and 2 values at n=6,7"
 	}
 	var faultRuns, fired, maxW int64
 	for n := 0; n <= maxN; n++ {
@@ -265,7 +266,7 @@ func runC20(c *Ctx) {
 		for i := 0; i < L; i++ {
 			total *= int64(len(fvals))
 		}
-		if n == 5 {
+		if n == 5 && !c.Thorough() {
 			total = 243 // first 5 positions vary, the rest stay at the first value
 		}
 		c.parFor(total, 8, func(lo, hi int64) {
